@@ -10,6 +10,7 @@ package vsched
 import (
 	"bytes"
 	"fmt"
+	"os"
 	"reflect"
 	"runtime"
 	"sort"
@@ -53,6 +54,7 @@ type Thread struct {
 	rw     *RWMutex
 	label  string
 	daemon bool
+	where  string
 }
 
 type timerRec struct {
@@ -127,7 +129,12 @@ func (s *Sched) notify() {
 	}
 }
 
+var debugSteps = os.Getenv("VERIF_REPLAY") != "" && os.Getenv("VERIF_DEBUG") != ""
+
 func (s *Sched) park(t *Thread, op opKind, m *Mutex, rw *RWMutex) {
+	if debugSteps {
+		t.where = callerLabel(3) + "<" + callerLabel(4)
+	}
 	s.mu.Lock()
 	t.op, t.mu, t.rw = op, m, rw
 	t.parked = true
@@ -817,6 +824,9 @@ loop:
 		}
 		s.running = t
 		s.steps++
+		if debugSteps {
+			s.log = append(s.log, fmt.Sprintf("step %d: thread %d (%s) op=%d where=%s", s.steps, t.id, t.label, t.op, t.where))
+		}
 		s.mu.Unlock()
 		select { // drain a stale arrival notification
 		case <-s.arrived:
